@@ -130,6 +130,15 @@ type tightArena struct {
 	segs  [][]byte
 	slack int
 	first int
+	dirty bool // new segments come with stale content beyond their length
+}
+
+func dirtyBuf(n int) []byte {
+	b := make([]byte, n)
+	for i := range b {
+		b[i] = 0xd7
+	}
+	return b[:0]
 }
 
 func (a *tightArena) NumSegments() int64 { return int64(len(a.segs)) }
@@ -154,6 +163,9 @@ func (a *tightArena) Allocate(minsz capnp.Size, segs map[capnp.SegmentID]*capnp.
 		sz = a.first
 	}
 	b := make([]byte, 0, sz)
+	if a.dirty {
+		b = dirtyBuf(sz)
+	}
 	a.segs = append(a.segs, b)
 	return capnp.SegmentID(len(a.segs) - 1), b, nil
 }
@@ -181,12 +193,23 @@ func makeArena(spec string) capnp.Arena {
 			m, _ = strconv.Atoi(t[2])
 		}
 		return &tightArena{slack: n, first: m}
+	case "dsingle": // a recycled buffer: length 0, dirty capacity (the library must clear what it hands out)
+		return capnp.SingleSegment(dirtyBuf(n))
+	case "dmulti":
+		return capnp.MultiSegment([][]byte{dirtyBuf(n)})
+	case "dtight":
+		m := 0
+		if len(t) > 2 {
+			m, _ = strconv.Atoi(t[2])
+		}
+		return &tightArena{slack: n, first: m, dirty: true}
 	}
 	return capnp.SingleSegment(nil)
 }
 
 var arenaSpecs = []string{"single", "single:8", "single:64", "single:4096", "multi", "multi:8", "multi:16", "multi:64",
-	"tight:0", "tight:0:24", "tight:8", "tight:8:16", "tight:16", "tight:64"}
+	"tight:0", "tight:0:24", "tight:8", "tight:8:16", "tight:16", "tight:64",
+	"dsingle:64", "dsingle:4096", "dmulti:16", "dmulti:256", "dtight:0", "dtight:8:16", "dtight:64"}
 
 // ---- building through the public API
 
@@ -226,6 +249,35 @@ func (b *builder) fillStruct(st capnp.Struct, v *Val) error {
 			if err := st.SetPtr(uint16(i), tmp.ToPtr()); err != nil {
 				return err
 			}
+		}
+		if c := v.Ptrs[i]; c != nil && c.Kind == vList && c.EK == 2 && c.N >= 1 && b.r.Chance(1, 2) {
+			// a byte list through the byte-oriented API: SetData / SetText / SetTextFromBytes / NewData / NewText
+			var err error
+			textShaped := c.N >= 2 && c.Prim[c.N-1] == 0
+			switch k := b.r.Intn(5); {
+			case textShaped && k == 0:
+				err = st.SetText(uint16(i), string(c.Prim[:c.N-1]))
+			case textShaped && k == 1:
+				err = st.SetTextFromBytes(uint16(i), c.Prim[:c.N-1])
+			case textShaped && k == 2:
+				var l capnp.UInt8List
+				l, err = capnp.NewTextFromBytes(st.Segment(), c.Prim[:c.N-1])
+				if err == nil {
+					err = st.SetPtr(uint16(i), l.ToPtr())
+				}
+			case k == 3:
+				var l capnp.UInt8List
+				l, err = capnp.NewData(st.Segment(), c.Prim)
+				if err == nil {
+					err = st.SetPtr(uint16(i), l.ToPtr())
+				}
+			default:
+				err = st.SetData(uint16(i), c.Prim)
+			}
+			if err != nil {
+				return err
+			}
+			continue
 		}
 		if err := b.setPtr(st.Segment(), v.Ptrs[i], func(p capnp.Ptr) error { return st.SetPtr(uint16(i), p) }); err != nil {
 			return err
@@ -487,6 +539,39 @@ func execBuild(t []string) string {
 			return "err"
 		}
 		return "ok " + s
+	case "rmwbytes": // the segments of the message after a round trip through Marshal / Unmarshal and further allocation in each segment
+		msg, err := buildMessage(t[1], mode, seed, v)
+		if err != nil {
+			return "builderr"
+		}
+		b, err := msg.Marshal()
+		if err != nil {
+			return "err"
+		}
+		m2, err := capnp.Unmarshal(b)
+		if err != nil {
+			return "err"
+		}
+		for id := int64(0); id < m2.NumSegments() && id < 4; id++ {
+			sg, err := m2.Segment(capnp.SegmentID(id))
+			if err != nil {
+				return "err"
+			}
+			orphan, err := capnp.NewStruct(sg, capnp.ObjectSize{DataSize: 16, PointerCount: 1})
+			if err != nil {
+				return "err"
+			}
+			orphan.SetUint64(0, 0x7777777777777777)
+			orphan.SetUint64(8, 0x7777777777777777)
+			if tx, err := capnp.NewText(sg, "wwwwwwwwwwwwwwwwwwwwwww"); err == nil {
+				orphan.SetPtr(0, tx.ToPtr())
+			}
+		}
+		s, ok := msgSegs(m2)
+		if !ok {
+			return "err"
+		}
+		return "ok " + s
 	case "copy":
 		return execCopy(t, mode, seed, v)
 	}
@@ -504,6 +589,33 @@ func checkSerialisations(msg *capnp.Message, want string, r *lib.Rng) string {
 	}
 	if got := liveTree(m2); got != want {
 		return "mismatch marshal " + got
+	}
+	// a decoded message can be modified: new objects (allocated preferring each of its segments) must not land on
+	// top of what is there
+	for id := int64(0); id < m2.NumSegments() && id < 4; id++ {
+		sg, err := m2.Segment(capnp.SegmentID(id))
+		if err != nil {
+			return "mismatch segment-error"
+		}
+		orphan, err := capnp.NewStruct(sg, capnp.ObjectSize{DataSize: 16, PointerCount: 1})
+		if err != nil {
+			return "mismatch alloc-error"
+		}
+		orphan.SetUint64(0, 0x7777777777777777)
+		orphan.SetUint64(8, 0x7777777777777777)
+		if tx, err := capnp.NewText(sg, "wwwwwwwwwwwwwwwwwwwwwww"); err == nil {
+			orphan.SetPtr(0, tx.ToPtr())
+		}
+	}
+	if got := liveTree(m2); got != want {
+		return "mismatch modified-after-unmarshal " + got
+	}
+	if b2, err := m2.Marshal(); err != nil {
+		return "mismatch remarshal-error"
+	} else if m2b, err := capnp.Unmarshal(b2); err != nil {
+		return "mismatch reunmarshal-error"
+	} else if got := liveTree(m2b); got != want {
+		return "mismatch remarshal " + got
 	}
 	pb, err := msg.MarshalPacked()
 	if err != nil {
@@ -541,6 +653,9 @@ func checkSerialisations(msg *capnp.Message, want string, r *lib.Rng) string {
 		if err := enc.Encode(msg); err != nil {
 			return "mismatch encode-error"
 		}
+		if err := enc.Encode(tiny); err != nil { // … and a shorter one after it
+			return "mismatch encode-error"
+		}
 		rd := &chunkReader{data: buf.Bytes(), chunks: genChunks(r)}
 		var dec *capnp.Decoder
 		if packed {
@@ -566,6 +681,13 @@ func checkSerialisations(msg *capnp.Message, want string, r *lib.Rng) string {
 			if got := liveTree(m4); got != want {
 				return "mismatch stream " + got
 			}
+		}
+		m5, err := dec.Decode()
+		if err != nil {
+			return "mismatch decode-error"
+		}
+		if got := liveTree(m5); got != "S{8877665544332211|}" {
+			return "mismatch stream-last " + got
 		}
 		if _, err := dec.Decode(); err != io.EOF {
 			return "mismatch stream-not-eof"
@@ -892,6 +1014,14 @@ func genBuild(rec *lib.Rec, r *lib.Rng, thorough bool, which string) {
 				// and the bytes must be a valid message (every pointer resolves, objects disjoint, padding zero)
 				rec.Op("S", "build spec "+shadowTree(v)+" "+segs, true)
 				rec.Op("S", "build valid "+segs, true)
+			}
+			if i%4 == 0 {
+				// … also after the message was decoded again and more objects were allocated in each of its segments
+				res := execLine("build rmwbytes " + arena + " " + mode + " " + seed + " " + vs)
+				if strings.HasPrefix(res, "ok ") {
+					rec.Op("S", "build spec "+shadowTree(v)+" "+res[3:], true)
+					rec.Op("S", "build valid "+res[3:], true)
+				}
 			}
 			rec.Count("arena " + strings.Split(arena, ":")[0])
 		case "C16":
